@@ -417,12 +417,22 @@ func (bsc *BlipSyncContext) handleChangesResponse(ctx context.Context, sender *b
 			}
 		}
 	}
+	// entries the peer's answer does not cover are revisions it did not ask for
+	if collectionCtx.sgr2PushAlreadyKnownSeqsCallback != nil {
+		for i := len(answer); i < len(changeArray); i++ {
+			alreadyKnownSeqs = append(alreadyKnownSeqs, changeArray[i][0].(SequenceID))
+		}
+	}
 
 	if base.VerifOn && collectionCtx.sgr2PushAddExpectedSeqsCallback != nil {
 		base.VerifEmit(verifObj(bsc), "BatchSent", "coll", verifCollIdx(collectionIdx), "batch", verifBatchID(changeArray), "sent", verifSeqs(sentSeqs), "known", verifSeqs(alreadyKnownSeqs))
 	}
-	if collectionCtx.sgr2PushAlreadyKnownSeqsCallback != nil {
-		collectionCtx.sgr2PushAlreadyKnownSeqsCallback(alreadyKnownSeqs...)
+	// the batch's sequences were registered as expected when the batch was offered (sendBatchOfChanges): the ones the peer
+	// already has only need marking as processed, the sent ones are marked when their rev message is acknowledged
+	if collectionCtx.sgr2PushProcessedSeqCallback != nil {
+		for _, knownSeq := range alreadyKnownSeqs {
+			collectionCtx.sgr2PushProcessedSeqCallback(knownSeq)
+		}
 	}
 	if base.VerifOn && collectionCtx.sgr2PushAddExpectedSeqsCallback != nil {
 		base.VerifEmit(verifObj(bsc), "KnownDone", "coll", verifCollIdx(collectionIdx), "batch", verifBatchID(changeArray))
@@ -430,7 +440,6 @@ func (bsc *BlipSyncContext) handleChangesResponse(ctx context.Context, sender *b
 
 	if revSendCount > 0 {
 		if collectionCtx.sgr2PushAddExpectedSeqsCallback != nil {
-			collectionCtx.sgr2PushAddExpectedSeqsCallback(sentSeqs...)
 			if base.VerifOn {
 				base.VerifEmit(verifObj(bsc), "ExpectDone", "coll", verifCollIdx(collectionIdx), "batch", verifBatchID(changeArray))
 			}
